@@ -575,6 +575,38 @@ def tdb_rules(ctx, A):
     dcall = unwrap_all(d0)
     okdoc = is_call(dcall, 'Attributes::doc') and dcall[2] and strip(dcall[2][0])[0] == 'field' and strip(dcall[2][0])[2] == 'attributes' and \
         strip(strip(dcall[2][0])[1])[0] in ('arg', 'var') and not any(isinstance(y, tuple) and y and y[0] == 'payload' for y in walk(strip(dcall[2][0])))
+    # the functions stored in the type are the very list that the impl-function loop (and the base-function injector) filled
+    af = strip(td.get('associated_functions', ('x',)))
+    okaf, detaf = False, show(af)[:60]
+    if af[0] == 'var':
+        npush = 0
+        for g_ in [tdb] + P.closures_of(tdb):
+            for c_ in g_.calls(lambda r: r['path'] and r['path'].endswith('Vec::<T, A>::push')):
+                recv = strip(g_.expr_of_operand(c_['term']['args'][0]))
+                if g_ is tdb and recv[:2] == af[:2]:
+                    npush += 1
+                elif g_ is not tdb and recv[0] == 'upvar':
+                    # the closure captured the list: its creation site in the builder names the captured local
+                    for bi_ in tdb.normal_blocks():
+                        for st_ in tdb.blocks[bi_]['stmts']:
+                            if st_['k'] == 'Assign' and st_['rv']['k'] == 'Aggregate' and st_['rv'].get('closure_id') == g_.id and recv[1] < len(st_['rv']['ops']):
+                                cap = strip(tdb.expr_of_operand(st_['rv']['ops'][recv[1]]))
+                                while cap[0] in ('ref', 'deref'):
+                                    cap = strip(cap[1])
+                                if cap[:2] == af[:2]:
+                                    npush += 1
+        # a helper that is handed `&mut <the list>` fills it too
+        for c_ in tdb.calls(lambda r: r['path'] in P.fns):
+            for a_ in c_['term']['args']:
+                ae = strip(tdb.expr_of_operand(a_))
+                while ae[0] in ('ref', 'deref'):
+                    ae = strip(ae[1])
+                if ae[:2] == af[:2] and str((a_.get('place') or {}).get('ty', '')).startswith('&mut '):
+                    npush += 1
+        inits = tdb.init_of(af[1])
+        okaf = npush >= 2 and len(inits) == 1 and is_call(strip(inits[0]), 'Vec::') and re.search(r'::new$', strip(inits[0])[1]) is not None
+        detaf = '%s: %d push site(s) fill it, starts as %s' % (show(af)[:40], npush, [show(i_)[:30] for i_ in inits])
+    ctx.ob(['C05', 'C07', 'C14'], 'R-SLP', 'TDB|associated-functions-stored', okaf, 'TypeDefinition.associated_functions is the list the impl-function loop and the base-function injector push into: %s' % detaf, where)
     ctx.ob(['C17'], 'R-SLP', 'TDB|doc-from-own-attributes', okdoc, 'TypeDefinition.doc is Attributes::doc of the definition\'s own attribute list, unchanged: %s' % show(d0)[:100], where)
     rrcall = [x for x in walk(R) if is_call(x, rr.id)]
 
